@@ -6,7 +6,7 @@
 const char *op_kind_name[] = {"create", "open", "close", "abort", "redef", "enddef", "_enddef", "begin_indep", "end_indep", "sync", "sync_numrecs", "flush",
                               "syncpoint", "barrier", "checkpoint", "def_dim", "def_var", "def_var_fill", "set_fill", "fill_var_rec", "put_att", "del_att",
                               "rename_att", "copy_att", "rename_dim", "rename_var", "put", "get", "iput", "iget", "bput", "wait", "cancel", "attach", "detach",
-                              "inq", "badid", "delete", "set_default_format", "probe"};
+                              "inq", "badid", "delete", "set_default_format", "probe", "openprobe"};
 
 int nc_type_size(int t) {
     switch (t) { case NC_BYTE: case NC_CHAR: case NC_UBYTE: return 1; case NC_SHORT: case NC_USHORT: return 2; case NC_INT: case NC_FLOAT: case NC_UINT: return 4;
@@ -276,7 +276,8 @@ static bool model_step_inner(Model &m, Op &op) {
     int opidx = m.opidx++;
     op.snap.reset(); op.msnap.reset(); op.exp_nreqs.clear(); op.exp_usage.clear();
     if (op.kind == OP_BARRIER) { m.pending_reads.clear(); return true; }
-    if (op.kind == OP_BADID) { op.exp_rc = NC_EBADID; return true; }   // a call on an id that is not open: always applicable
+    if (op.kind == OP_BADID) { op.exp_rc = NC_EBADID; return true; }
+    if (op.kind == OP_OPENPROBE) { op.rc_any = true; return true; }   // open an arbitrary byte image: handled entirely by the interpreter   // a call on an id that is not open: always applicable
     if (op.kind == OP_CHECKPOINT) {
         m.pending_reads.clear();
         if (op.a[0] == 1) { if (op.file < 0 || op.file >= (int)m.files.size() || !m.files[op.file].open || !m.files[op.file].in_redef) { op.skip = true; return false; } m.snap_state[op.file] = 1; op.name = m.files[op.file].path; }
@@ -659,6 +660,26 @@ static bool model_step_inner(Model &m, Op &op) {
     return skip();
 }
 
+#include "cdf.hpp"
+// the content of a pre-existing file as the independent decoder reads it (C04: expected results come from the specification, not the library)
+static bool model_from_image(const std::vector<uint8_t> &bytes, const std::string &path, MFile &out) {
+    sim::Inode tmp; tmp.write(0, bytes.data(), bytes.size()); tmp.vis.size = bytes.size(); tmp.vis.exists = true;
+    cdf::File d; if (!cdf::decode_header(tmp.vis, d)) return false;
+    out = MFile(); out.path = path; out.format = d.version; out.numrecs = d.numrecs; out.fresh = false; out.mode = FM_COLL;
+    for (auto &dd : d.dims) { MDim x; x.name = dd.name; x.len = dd.len; out.dims.push_back(x); }
+    auto conv_att = [](const cdf::Att &a) { MAtt x; x.name = a.name; x.type = a.type; for (long long i = 0; i < a.nelems; i++) x.v.push_back(cdf::att_int(a, i)); return x; };
+    for (auto &a : d.gatts) out.gatts.push_back(conv_att(a));
+    for (auto &v : d.vars) {
+        MVar x; x.name = v.name; x.type = v.type; for (auto dm : v.dimids) x.dimids.push_back((int)dm); x.isrec = v.isrec; x.shape = v.shape; x.recelems = v.nelems_per_rec; x.fresh = false; x.fill_known = false;
+        for (auto &a : v.atts) { x.atts.push_back(conv_att(a)); if (a.name == "_FillValue" && a.nelems == 1) { x.has_fillv = true; x.fillv = cdf::att_int(a, 0); } }
+        if (v.nelems_per_rec < 0 || v.nelems_per_rec > (1 << 20) || d.numrecs < 0 || d.numrecs > (1 << 20)) return false;
+        long long n = v.isrec ? d.numrecs * v.nelems_per_rec : v.nelems_per_rec; if (n < 0 || n > (1 << 20)) return false;
+        x.cells.assign((size_t)n, Cell()); x.nrec_alloc = v.isrec ? d.numrecs : 0;
+        for (long long k = 0; k < n; k++) { long long iv; double dv; bool isf; bool in = cdf::read_elem(tmp.vis, d, v, k, iv, dv, isf); if (in && dv == (double)iv && iv >= 0 && iv <= type_maxval(v.type)) { x.cells[(size_t)k].st = CS_VALUE; x.cells[(size_t)k].v = iv; } }
+        out.vars.push_back(x);
+    }
+    return true;
+}
 void annotate(Model &m, Program &p) {
     int nslots = 1; for (auto &op : p.ops) nslots = std::max(nslots, op.file + 1);
     m.init(p.cfg.sim.nprocs, std::min(nslots, 64));
@@ -667,6 +688,7 @@ void annotate(Model &m, Program &p) {
     m.strict_iget_overlap = (p.cfg.flags & 1) != 0;
     { auto sm = p.cfg.sim.env.find("PNETCDF_SAFE_MODE"); m.safe_mode = (sm != p.cfg.sim.env.end() && sm->second != "0"); }
     { auto h = p.cfg.sim.env.find("PNETCDF_HINTS"); m.aggr_env = (h != p.cfg.sim.env.end() && h->second.find("nc_num_aggrs_per_node") != std::string::npos); }
+    for (auto &f : p.preload) { MFile mf; if (model_from_image(f.second, f.first, mf)) m.disk[f.first] = mf; }
     m.cur_ops = &p.ops;
     for (auto &op : p.ops) model_step(m, op);
     m.cur_ops = nullptr;
